@@ -27,6 +27,35 @@ func ensureBuilt(fn *ssa.Function) {
 	if o := f.Origin(); o != nil && o.Pkg != nil {
 		o.Pkg.Build()
 	}
+	// synthetic wrappers (bound methods, thunks, promoted methods) have no package:
+	// build the package of the method they wrap
+	if f.Pkg == nil && f.Signature != nil && f.Signature.Recv() != nil {
+		if n := namedOf(f.Signature.Recv().Type()); n != nil && n.Obj().Pkg() != nil {
+			if p := f.Prog.Package(n.Obj().Pkg()); p != nil {
+				p.Build()
+			}
+		}
+	}
+	if f.Object() != nil && f.Object().Pkg() != nil {
+		if p := f.Prog.Package(f.Object().Pkg()); p != nil {
+			p.Build()
+		}
+	}
+}
+
+func namedOf(t types.Type) *types.Named {
+	for {
+		switch x := t.(type) {
+		case *types.Pointer:
+			t = x.Elem()
+		case *types.Named:
+			return x
+		case *types.Alias:
+			t = types.Unalias(x)
+		default:
+			return nil
+		}
+	}
 }
 
 // globalAddr returns the address of a package-level variable, running the owning
